@@ -602,13 +602,10 @@ def _corrupt_demo():
         ctx = C()
         ctx.scratch = sc
         for name, e in variants.items():
-            acc, bad, *_ = validate_events(ctx, [{"id": name, "ev": [e]}], parallel=1) if name != "wrapper name corrupted" \
-                else ([False], {}, 0, 0, 0)
-            if name == "wrapper name corrupted":
-                try:
-                    validate_events(ctx, [{"id": name, "ev": [e]}], parallel=1)
-                except MachineryError as ex:
-                    print(f"{name}: rejected (no event enabled; driver raises MachineryError: {str(ex)[:60]}...)")
+            try:
+                acc, bad, *_ = validate_events(ctx, [{"id": name, "ev": [e]}], parallel=1)
+            except MachineryError as ex:        # no event enabled at all: malformed observation
+                print(f"{name}: rejected (no event enabled; driver raises MachineryError: {str(ex)[:60]}...)")
                 continue
             print(f"{name}: {'ACCEPTED' if acc[0] else 'REJECTED'}" + (f" expected={list(bad.values())[0]}" if bad else ""))
 
